@@ -42,6 +42,11 @@ theorem expOut_cur_succ (cfg : Cfg) (callNo c k' : Nat) (hc : 1 ≤ callNo) (k :
 @[simp] theorem receive_cfg (s : St) (i : Nat) : (receive s i).cfg = s.cfg := by unfold receive; split <;> rfl
 @[simp] theorem receive_callsLeft (s : St) (i : Nat) : (receive s i).callsLeft = s.callsLeft := by
   unfold receive; split <;> rfl
+@[simp] theorem receive_workQ (s : St) (i : Nat) : (receive s i).workQ = s.workQ := by unfold receive; split <;> rfl
+@[simp] theorem receive_resQ (s : St) (i : Nat) : (receive s i).resQ = s.resQ := by unfold receive; split <;> rfl
+@[simp] theorem receive_workers (s : St) (i : Nat) : (receive s i).workers = s.workers := by unfold receive; split <;> rfl
+@[simp] theorem receive_total (s : St) (i : Nat) : (receive s i).total = s.total := by unfold receive; split <;> rfl
+@[simp] theorem receive_next (s : St) (i : Nat) : (receive s i).next = s.next := by unfold receive; split <;> rfl
 
 /-- P receives a result (non-blocking loop or final drain) -/
 theorem main_receive {cfg : Cfg} {s : St} {i : Nat} {r : List Nat} (h : Main cfg s) (hq : s.resQ = i :: r)
